@@ -94,7 +94,10 @@ func parseFCfg(id string) FCfg {
 	return c
 }
 
-var frontNames = []string{"Failover+ShardedMap", "Failover+SyncMap", "FailoverOf+ShardedMapOf"}
+// frontNames: the API x backend product. The first three are used by every Failover property; the cross pairings
+// (generic API over the interface{} backends and vice versa) are enumerated where the statement asks for the product.
+var frontNames = []string{"Failover+ShardedMap", "Failover+SyncMap", "FailoverOf+ShardedMapOf",
+	"FailoverOf[any]+ShardedMap", "FailoverOf[any]+SyncMap", "Failover+ShardedMapOf[any]"}
 
 // FEv is one logged event of an execution.
 type FEv struct {
@@ -404,6 +407,17 @@ func (f *frontF) FailurePeek(key []byte) (error, bool) {
 
 func (f *frontF) Preload(ctx context.Context, key []byte, v Tok) { _ = f.inner.Write(ctx, key, v) }
 
+// walkerOf returns the interface{}-valued Walk of a backend (ShardedMapOf exposes it through WalkDumpRestorer).
+func walkerOf(b interface{}) walker {
+	if w, ok := b.(walker); ok {
+		return w
+	}
+
+	return b.(interface {
+		WalkDumpRestorer() cache.WalkDumpRestorer
+	}).WalkDumpRestorer()
+}
+
 func (f *frontF) Peek(key []byte) (Tok, bool, time.Time, bool) {
 	var (
 		res   Tok
@@ -412,7 +426,7 @@ func (f *frontF) Peek(key []byte) (Tok, bool, time.Time, bool) {
 		found bool
 	)
 
-	_, _ = f.inner.(walker).Walk(func(e cache.Entry) error {
+	_, _ = walkerOf(f.inner).Walk(func(e cache.Entry) error {
 		if string(e.Key()) == string(key) {
 			found = true
 			at = e.ExpireAt()
@@ -433,7 +447,7 @@ func (f *frontF) Peek(key []byte) (Tok, bool, time.Time, bool) {
 func (f *frontF) WalkKeys() []string {
 	var ks []string
 
-	_, _ = f.inner.(walker).Walk(func(e cache.Entry) error {
+	_, _ = walkerOf(f.inner).Walk(func(e cache.Entry) error {
 		ks = append(ks, string(e.Key()))
 		return nil
 	})
@@ -549,6 +563,68 @@ func (f *frontFO) WalkKeys() []string {
 	return ks
 }
 
+// ---- generic API over an interface{} backend
+
+type frontFA struct {
+	f     *cache.FailoverOf[any]
+	inner cache.ReadWriter
+}
+
+func (f *frontFA) Get(ctx context.Context, key []byte, b func(context.Context) (Tok, error)) (Tok, bool, string, error) {
+	v, err := f.f.Get(ctx, key, func(ctx context.Context) (any, error) {
+		t, err := b(ctx)
+		if err != nil {
+			return nil, err
+		}
+
+		return t, nil
+	})
+
+	if v == nil {
+		return Tok{}, true, "", err
+	}
+
+	t, ok := v.(Tok)
+	if !ok {
+		return Tok{}, false, fmt.Sprintf("value of unexpected type %T: %v", v, v), err
+	}
+
+	return t, false, "", err
+}
+
+func (f *frontFA) KeyLocks() int { return f.f.VerifKeyLocks() }
+
+func (f *frontFA) ExpireAll() {
+	f.inner.(interface{ ExpireAll(context.Context) }).ExpireAll(context.Background())
+}
+
+func (f *frontFA) SeedFailure(ctx context.Context, key []byte, err error) {
+	if f.f.Errors != nil {
+		_ = f.f.Errors.Write(ctx, key, err)
+	}
+}
+
+func (f *frontFA) FailurePeek(key []byte) (error, bool) {
+	if f.f.Errors == nil {
+		return nil, false
+	}
+
+	v, err := f.f.Errors.Read(context.Background(), key)
+	if err != nil {
+		return nil, false
+	}
+
+	return v, true
+}
+
+func (f *frontFA) Preload(ctx context.Context, key []byte, v Tok) { _ = f.inner.Write(ctx, key, v) }
+
+func (f *frontFA) Peek(key []byte) (Tok, bool, time.Time, bool) {
+	return (&frontF{inner: f.inner}).Peek(key)
+}
+
+func (f *frontFA) WalkKeys() []string { return (&frontF{inner: f.inner}).WalkKeys() }
+
 // ---- scenario construction
 
 const (
@@ -655,13 +731,30 @@ func newFH(cfg FCfg) *fh {
 // construct creates the front-end and its backend (goroutines started here are daemons).
 func (h *fh) construct(cfg FCfg, bcfg cache.Config, st cache.StatsTracker, lg cache.Logger, ms, ft, upd time.Duration) {
 	switch cfg.Front {
-	case 0, 1:
+	case 3, 4:
 		var inner cache.ReadWriter
 
-		if cfg.Front == 0 {
+		if cfg.Front == 3 {
 			inner = cache.NewShardedMap(bcfg.Use)
 		} else {
 			inner = cache.NewSyncMap(bcfg.Use)
+		}
+
+		f := cache.NewFailoverOf[any](cache.FailoverConfigOf[any]{
+			Name: "c", Backend: &bwrap{h: h, inner: inner}, SyncUpdate: cfg.SU, SyncRead: cfg.SR, FailHard: cfg.FH,
+			MaxStaleness: ms, FailedUpdateTTL: ft, UpdateTTL: upd, Stats: st, Logger: lg, ObserveMutability: cfg.ObsMut,
+		}.Use)
+		h.front = &frontFA{f: f, inner: inner}
+	case 0, 1, 5:
+		var inner cache.ReadWriter
+
+		switch cfg.Front {
+		case 0:
+			inner = cache.NewShardedMap(bcfg.Use)
+		case 1:
+			inner = cache.NewSyncMap(bcfg.Use)
+		default:
+			inner = cache.NewShardedMapOf[any](bcfg.Use)
 		}
 
 		f := cache.NewFailover(cache.FailoverConfig{
